@@ -346,3 +346,95 @@ pub fn h_c28_selection_ops() {
     check("C28.selection_ops.selection", selection_valid(&um));
     reach("C28.selection_ops");
 }
+
+// ------------------------------------------------------------------------------------- cells with content (C01/C02/C03)
+
+use std::collections::HashMap as StdHashMap;
+
+const INPUTS: [&str; 7] = ["5", "10%", "abc", "TRUE", "'12", "$3", ""];
+
+/// one sheet with the default style pools; optionally a cell already there (number, text, styled empty cell)
+fn any_cell_model() -> (UserModel<'static>, i32, i32) {
+    let (r, c) = (any_row_index(), any_col_index());
+    let mut ws = empty_sheet("Sheet1", 1);
+    let mut wb = workbook_with_cells(vec![]);
+    let mut bold = Style::default();
+    bold.font.b = true;
+    let bold_idx = wb.styles.get_style_index_or_create(&bold);
+    let k = any_u8();
+    assume(k < 4);
+    if k > 0 {
+        let cell = if k == 1 { Cell::NumberCell { v: 1.5, s: 0 } } else if k == 2 { Cell::SharedString { si: 0, s: bold_idx } } else { Cell::EmptyCell { s: bold_idx } };
+        let mut row: StdHashMap<i32, Cell> = StdHashMap::new();
+        row.insert(c, cell);
+        ws.sheet_data.insert(r, row);
+    }
+    wb.worksheets = vec![ws];
+    (user_model_paused(wb), r, c)
+}
+
+/// what the property lists for one cell: its record (content, type, style index), the style it shows, its link, its row's height
+fn cell_obs(um: &UserModel, r: i32, c: i32) -> ((u8, f64, bool, i32), Result<Style, String>, Option<Link>, Result<f64, String>) {
+    let ws = &um.model.workbook.worksheets[0];
+    let cell = match ws.sheet_data.get(&r) { Some(row) => row.get(&c).cloned(), None => None };
+    // content and value type; a missing cell and an empty cell show the same, the style is compared as a Style
+    let content = match cell {
+        None | Some(Cell::EmptyCell { .. }) => (0, 0.0, false, 0),
+        Some(Cell::NumberCell { v, .. }) => (1, v, false, 0),
+        Some(Cell::BooleanCell { v, .. }) => (2, 0.0, v, 0),
+        Some(Cell::SharedString { si, .. }) => (3, 0.0, false, si),
+        Some(Cell::ErrorCell { .. }) => (4, 0.0, false, 0),
+        Some(_) => (5, 0.0, false, 0),
+    };
+    (content, um.model.get_style_for_cell(0, r, c), ws.links.get(&(r, c)).cloned(), um.model.get_row_height(0, r))
+}
+
+/// typing into a cell, undo, redo
+pub fn h_c01_cell_input() {
+    let (mut um, r, c) = any_cell_model();
+    let same_cell = any_bool();
+    let (tr, tc) = if same_cell { (r, c) } else { (any_row_index(), any_col_index()) };
+    let i = any_usize_to(INPUTS.len() - 1);
+    let before = (cell_obs(&um, r, c), cell_obs(&um, tr, tc));
+    let no_cell_before = match um.model.workbook.worksheets[0].sheet_data.get(&tr) { Some(row) => !row.contains_key(&tc), None => true };
+    if um.set_user_input(0, tr, tc, INPUTS[i]).is_ok() {
+        let after = (cell_obs(&um, r, c), cell_obs(&um, tr, tc));
+        // KF-C01-4: undo of an input into a position that held no cell clears the contents but keeps the style the
+        // input implied (10% -> percent format, $3 -> currency, '12 -> quote prefix)
+        let implied_style = no_cell_before & (after.1 .1 != before.1 .1);
+        if um.undo().is_ok() {
+            check_kf("C01.cell_input.undo", (cell_obs(&um, r, c), cell_obs(&um, tr, tc)) == before, "KF-C01-4", implied_style);
+            if um.redo().is_ok() {
+                check("C02.cell_input.redo", (cell_obs(&um, r, c), cell_obs(&um, tr, tc)) == after);
+            }
+        }
+    }
+    reach("C01.cell_input");
+}
+
+/// the same input reaches a replica through the flushed queue (op, or op then undo)
+pub fn h_c03_cell_input() {
+    let (mut primary, r, c) = any_cell_model();
+    let wb = primary.model.workbook.clone();
+    let mut replica = user_model_paused(wb);
+    let (tr, tc) = if any_bool() { (r, c) } else { (any_row_index(), any_col_index()) };
+    let i = any_usize_to(INPUTS.len() - 1);
+    if primary.set_user_input(0, tr, tc, INPUTS[i]).is_err() { return; }
+    let bytes = primary.flush_send_queue();
+    let applied = replica.apply_external_diffs(&bytes).is_ok();
+    check("C03.cell_input.converges", applied && (cell_obs(&primary, r, c), cell_obs(&primary, tr, tc)) == (cell_obs(&replica, r, c), cell_obs(&replica, tr, tc)));
+    reach("C03.cell_input");
+}
+
+/// a rejected input (row, column or sheet out of range) changes nothing
+pub fn h_c04_cell_input() {
+    let (mut um, _r, _c) = any_cell_model();
+    let (sheet, tr, tc) = (any_u32(), any_i32(), any_i32());
+    let i = any_usize_to(INPUTS.len() - 1);
+    let before = um.model.workbook.clone();
+    let (nu, nr, nq) = (um.history.undo_stack.len(), um.history.redo_stack.len(), um.send_queue.len());
+    if um.set_user_input(sheet, tr, tc, INPUTS[i]).is_err() {
+        check("C04.cell_input.unchanged", (um.model.workbook == before) & (um.history.undo_stack.len() == nu) & (um.history.redo_stack.len() == nr) & (um.send_queue.len() == nq));
+    }
+    reach("C04.cell_input");
+}
